@@ -76,6 +76,11 @@ func (g *Global) funcsForProp(p string) []string {
 			out = append(out, k)
 		}
 	}
+	for _, n := range sortedKeys(g.contracts.Lemmas) {
+		if contains(g.contracts.Lemmas[n].Props, p) {
+			out = append(out, "lemma."+n)
+		}
+	}
 	return out
 }
 
@@ -145,7 +150,12 @@ func cmdCheck(args []string) {
 	var canaries []job
 	genFailures := map[string]string{}
 	for _, k := range keys {
-		res := g.verifyFunc(k)
+		var res *FuncResult
+		if strings.HasPrefix(k, "lemma.") {
+			res = g.verifyLemma(strings.TrimPrefix(k, "lemma."))
+		} else {
+			res = g.verifyFunc(k)
+		}
 		results = append(results, fres{k, res})
 		if res.Err != nil {
 			genFailures[k] = res.Err.Error()
